@@ -155,6 +155,7 @@ package didnuts
 // already present (jwx: key.go), so the kid member must have been discarded from this key first.
 //@ func (verificationMethodValidator).verifyThumbprint
 //@   prop C09 C19
+//@   assume-benign
 //@   call jwk.AssignKeyID #1 requires [kid-member-discarded-first] isNilIface(ret(call (did.VerificationMethod).JWK #1).1)
 //@        && arg(0) == ret(call (did.VerificationMethod).JWK #1).0 && same(arg(call (did.VerificationMethod).JWK #1, 0), *method)
 //@        && did(call (jwk.Key).Remove #1) && arg(call (jwk.Key).Remove #1, 0) == arg(0) && arg(call (jwk.Key).Remove #1, 1) == jwk.KeyIDKey
@@ -169,6 +170,9 @@ package didnuts
 //@   loop 1 invariant !did(call (verificationMethodValidator).verifyThumbprint #1) || isNilIface(ret(call (verificationMethodValidator).verifyThumbprint #1))
 //@   loop 2 invariant !did(call (verificationMethodValidator).verifyThumbprint #2) || isNilIface(ret(call (verificationMethodValidator).verifyThumbprint #2))
 //@   loop 3 invariant !did(call (verificationMethodValidator).verifyThumbprint #2) || isNilIface(ret(call (verificationMethodValidator).verifyThumbprint #2))
+//@   loop 3 invariant $i == 0 || relationships[$i-1].VerificationMethod == nil || (did(call (verificationMethodValidator).verifyThumbprint #2)
+//@        && arg(call (verificationMethodValidator).verifyThumbprint #2, 1) == relationships[$i-1].VerificationMethod)
+//@   loop 1 invariant $i == 0 || (did(call (verificationMethodValidator).verifyThumbprint #1) && arg(call (verificationMethodValidator).verifyThumbprint #1, 1) == document.VerificationMethod[$i-1])
 //@   call (verificationMethodValidator).verifyThumbprint #1 requires [after-id-check-of-the-same-method] isNilIface(ret(call verifyDocumentEntryID #1))
 //@        && same(arg(call verifyDocumentEntryID #1, 0), document.ID) && same(arg(call verifyDocumentEntryID #1, 1), arg(1).ID.URI()) && arg(1) == method
 //@   call (verificationMethodValidator).verifyThumbprint #2 requires [relationship-method-after-id-check] isNilIface(ret(call verifyDocumentEntryID #2))
